@@ -47,7 +47,11 @@ def outcomes_equal(h, o1, o2, tag, known=None, known_zero=True):
         if c1 is None or c2 is None:
             return
         h.prove(f'{tag}.same_type', c1.type == c2.type, known=known)
-        h.prove(f'{tag}.same_value', same(c1.value, c2.value), known=known)
+        zero = None
+        if c1.type in (CT.SINGLE, CT.DOUBLE) and c1.type == c2.type:
+            # genuine defect (known finding): the short forms push0!/push0# lose the sign of a negative zero
+            zero = [(KF_NEG_ZERO, land(c1.value == 0.0, c2.value == 0.0))]
+        h.prove(f'{tag}.same_value', same(c1.value, c2.value), known=(known or []) + (zero or []) or None)
     elif k1 == 'host':
         h.prove(f'{tag}.no_host_exception', False, detail=repr(o1[1]))
 
